@@ -36,6 +36,25 @@ add("C19","model_checking","explicit-state exploration of all record lists x all
     "All record lists up to a length bound over an alphabet of awkward records, all ways of cutting them into <= 3 append sessions, on the real Stats::write/read/summarize and on harper_wasm::Linter's stats methods; each trace is an execution of the implementation.",
     "record alphabet and list length bound; file-level append in harper-ls save_stats is covered through the same Stats::write on a growing buffer", "§4.C19", "E2")
 
+add("C05","model_checking","explicit-state exploration of operation histories on one long-lived LintGroup, each lint step compared with a freshly built linter; thread and process replication of a fixed menu",
+    "All sequences up to a depth bound over ~25 operations (lint one of 8 collision-forcing documents as plain text or Markdown, switch one of 4 rules on/off/unset, and in the thorough tier a 10050-clause flood that forces cache eviction) on one real LintGroup used the way harper-ls and harper.js use it; every lint step must equal a fresh LintGroup's output including order. The same menu is run on 2 and 3 concurrent OS threads and in separate processes and the serialised outputs compared.",
+    "depth bound; the document menu; harper-core has no lock/atomic of its own, so there is no interleaving to enumerate (threads are replicated, not scheduled)", "§4.C05", "E2")
+add("C06","exploration","exhaustive enumeration of the whole curated dictionary x dialects x context frames, and of all short letter strings",
+    "Every one of the ~130k dictionary words in every dialect it belongs to, in 7 context frames (plus Capitalised/UPPER forms of lower-case entries), must not be flagged; every a-z string up to length 3 (4 thorough) and every single-deletion variant of short words that the dictionary lacks must be flagged exactly once with the exact span, all suggestions being dictionary words of the active dialect.",
+    "context frames replace 'random sentences'; non-words bounded by length", "§4.C06", "E1")
+add("C11","model_checking","explicit-state exploration of configurations (single and pairwise deviations from three bases) on one long-lived LintGroup against per-rule reference runs; exhaustive overlay algebra on 3 keys",
+    "For a covering set of documents on which 289 of 290 rule keys fire: under every single-rule deviation from all-off, all-on and curated, every co-firing pair in isolation and removed, and two 2-partitions, LintGroup::lint equals the multiset union of what each enabled rule produces alone (one long-lived group, configurations switched in place so stale cache entries would show). The overlay helpers (merge_from, fill_with_curated, clear, set_if_unset, unset, JSON and LSP-settings round trip) are checked on all 64 x 64 configurations over 2 real keys + 1 unknown key x {absent, null, true, false}.",
+    "not all 2^290 assignments: additivity per rule makes single and pairwise deviations the generating set; document cover", "§4.C11", "E2")
+add("C12","exploration","exhaustive enumeration of (paragraph, rest) pairs with a differential oracle",
+    "All pairs of a quote-free complete paragraph P (harvested sentences + condensing-heavy ones) and a rest D (all short strings over the plain alphabet, all seeds, seed prefixes, word x condensing-trigger pairs): lints(P+D) == lints(P) + shifted lints(D) as multisets, all rules on, cache defeated.",
+    "bounds on |P| and |D| sets; plain English only (the statement's premise)", "§4.C12", "E1")
+add("C15","exploration","small-scope exhaustive enumeration of dictionaries and queries against a set model and brute-force Levenshtein",
+    "Every subset of size <= 2 (3 thorough) of the 84 strings over {a,b,A,'} of length 1-3, built as FST, mutable and every two-child merged dictionary, queried with ~100 strings: membership, exact membership, metadata, canonical spelling, by-id lookup and str variants against a set model; fuzzy search for bounds 0-3 x caps {1,2,100}: member, true distance, within bound, sorted, capped, complete for lower-case queries. Curated scale: dictionary words, upper-cased and deletion variants on FST vs mutable; fuzzy sets vs brute force.",
+    "small alphabet/size bound; edit_distance is reached through fuzzy_match (crate-private)", "§4.C15", "E1")
+add("C16","model_checking","explicit-state exploration of call histories on the real harper_wasm::Linter against a reference model and a shadow instance",
+    "All call sequences up to a depth bound over 18 operations (lint 6 texts in 2 languages, ignore a returned lint, apply a suggestion, import words, migrate everything to a new Linter through export/import, export-clear-import the ignore list, set configuration) on the natively compiled harper_wasm::Linter. Every lint result is checked for bounds, disjointness, problem text, JSON round trips, equality with a fresh core pipeline (minus exactly the ignored lints) and equality with a shadow instance that never exported/imported.",
+    "operation alphabet and depth; JsValue-returning methods are wasm-only and left out", "§4.C16", "E2")
+
 claimed = [C[k] for k in sorted(C)]
 na = [dict(property_id=p["id"], reason="check under construction in this build phase; not claimed until its command exists and passes on the unchanged tree")
       for p in props if p["id"] not in C]
@@ -46,7 +65,7 @@ m = dict(version=1,
              baseline_off_cmd="cd /repo && RUSTUP_TOOLCHAIN=stable-x86_64-unknown-linux-gnu cargo nextest run --workspace --no-fail-fast --offline",
              source_commits=[], add_only=True),
   engines=[dict(name="E1 text-space explorer", path="/verif/harness/hv/src/{pool,spaces,sweep,small}.rs", serves_properties=[k for k in sorted(C) if C[k]["engine"]=="E1"], kind_free_text="exhaustive enumeration of finite input spaces over the real parsers/linters in watchdog-supervised worker processes"),
-           dict(name="E2 history explorer", path="/verif/harness/hv/src/c19.rs", serves_properties=[k for k in sorted(C) if C[k]["engine"]=="E2"], kind_free_text="breadth-first enumeration of operation histories on long-lived real objects against reference models")],
+           dict(name="E2 history explorer", path="/verif/harness/hv/src/{e2,c11,c19}.rs", serves_properties=[k for k in sorted(C) if C[k]["engine"]=="E2"], kind_free_text="breadth-first enumeration of operation histories on long-lived real objects against reference models")],
   checks=claimed, not_applicable=na,
   notes="Exit codes: 0 held (open known findings printed as KNOWN-FINDING lines), 1 violation (VIOLATION lines), 2 machinery failure. Known findings: /verif/known_findings.txt.")
 json.dump(m, open('/verif/MANIFEST.json','w'), indent=1)
